@@ -34,7 +34,8 @@ Fixpoint expand (p:npat) : pat :=
 Definition meta_head (p:npat) : bool :=
   match p with NMV _ _ _ _ _ _ | NESub _ _ _ | NSSub _ _ _ => true | _ => false end.
 
-(** structural equality (what membership in a Python [set] of frozen dataclasses decides) *)
+(** structural equality (what membership in a Python [set] of frozen dataclasses decides; the
+    substitution of an [Instantiate] is a [frozendict]: order-insensitive) *)
 Fixpoint npat_eqb (a b:npat) : bool :=
   match a, b with
   | NE n, NE m | NS n, NS m | NY n, NY m => N.eqb n m
@@ -44,13 +45,18 @@ Fixpoint npat_eqb (a b:npat) : bool :=
       N.eqb i j && list_eqb a1 b1 && list_eqb a2 b2 && list_eqb a3 b3 && list_eqb a4 b4 && list_eqb a5 b5
   | NESub p x q, NESub p' y q' | NSSub p x q, NSSub p' y q' => npat_eqb p p' && N.eqb x y && npat_eqb q q'
   | NInst p d, NInst p' d' =>
-      npat_eqb p p' &&
-      (fix go (d d':list (N * npat)) : bool :=
-         match d, d' with
-         | [], [] => true
-         | (k, v) :: r, (k', v') :: r' => N.eqb k k' && npat_eqb v v' && go r r'
-         | _, _ => false
-         end) d d'
+      (* a frozendict compares (and hashes) as an unordered map *)
+      npat_eqb p p' && Nat.eqb (length d) (length d') &&
+      (fix go (d:list (N * npat)) : bool :=
+         match d with
+         | [] => true
+         | (k, v) :: r =>
+             (fix find (e:list (N * npat)) : bool :=
+                match e with
+                | [] => false
+                | (k', v') :: e' => if N.eqb k k' then npat_eqb v v' else find e'
+                end) d' && go r
+         end) d
   | _, _ => false
   end.
 
